@@ -230,6 +230,11 @@ theorem afterSensors_split : ∀ (es post : List Ev), afterSensors es = some pos
     | timer => obtain ⟨pre, hp⟩ := afterSensors_split r post (by simpa [afterSensors] using h); exact ⟨_ :: pre, by rw [hp]; rfl⟩
     | versions ks => obtain ⟨pre, hp⟩ := afterSensors_split r post (by simpa [afterSensors] using h); exact ⟨_ :: pre, by rw [hp]; rfl⟩
 
+theorem nodupB_iff {l : List Nat} : nodupB l = true ↔ l.Nodup := by
+  induction l with
+  | nil => simp [nodupB]
+  | cons a l ih => simp [nodupB, ih]
+
 /-- `answered`, read off the recorded answer times -/
 theorem answered_obs (c : Cfg) (es : List Ev) (k : Nat) :
     answered c (observe c es) k = true ↔
@@ -269,10 +274,12 @@ theorem spec_loaded (c : Cfg) (wf : wfCfg c) (es : List Ev) (hl : (run c init es
     Bool.not_eq_true', List.contains_eq_mem]
   have ht0 : (observe c es).t0 = (run c init es).1.t0 := rfl
   have herr : (observe c es).errors = (run c init es).1.errors := rfl
-  refine ⟨⟨by rw [ht0]; exact i2, ?_⟩, ?_⟩
+  refine ⟨⟨⟨by rw [ht0]; exact i2, ?_⟩, ?_⟩, ?_⟩
   · intro k hk
     rw [herr] at hk
     exact ((hmem k).1 hk).1
+  · rw [herr, i3]
+    exact nodupB_iff.mpr (List.Nodup.sublist List.filter_sublist (by simpa [kinds] using List.nodup_range))
   · intro k hk
     rw [herr]
     have htx : (observe c es).tx.getD k 0 = (run c init es).1.tx k := getD_map_kinds c _ _ k hk
